@@ -59,7 +59,7 @@ func TestC15Concurrent(t *testing.T) {
 			continue
 		}
 		rng := r.Rand(i)
-		backend := pick(rng, []string{"fs", "fs", "fsaes"})
+		backend := pick(rng, []string{"fs", "fs", "fsaes", "fsmt"})
 		nkeys := 1 + rng.IntN(3)
 		nclients := 4 + rng.IntN(6)
 		opsPer := 12 + rng.IntN(20)
@@ -78,13 +78,20 @@ func TestC15Concurrent(t *testing.T) {
 			nkeys = 3
 		}
 		hist := concurrentHistory(conn, nkeys, nclients, opsPer, rng.Uint64(), tag, withDelete)
-		torn, reads := 0, 0
+		torn, reads, getErrs := 0, 0, 0
 		for k, ops := range hist {
 			for _, o := range ops {
 				if o.Input.(regIn).Op == "get" {
 					reads++
 					if o.Output.(regOut).Garbage {
 						torn++
+					}
+					if out := o.Output.(regOut); out.Err {
+						// no fault is injected here: a Get answers with a value or with "absent"
+						getErrs++
+						if getErrs <= 2 {
+							r.Violation("get-neither-value-nor-absent", "backend="+backend, fmt.Sprintf("a Get concurrent with Sets and Deletes of the key returned an error that is not ErrNotExist: %.200s (backend %s)", out.ErrText, backend), nil)
+						}
 					}
 				}
 			}
